@@ -20,6 +20,9 @@ type c15Case struct {
 	K1, K2 int
 	Nil    bool // striped: outer slice nil (count 0)
 	Frames int  // frames of the operand buffers (0: 3 with length 2)
+	// Surplus: striped calls with more slices than channels: 1 = the surplus slices are empty, 2 = nil
+	// (0: every slice has three elements)
+	Surplus int `json:"surplus,omitempty"`
 }
 
 // snapshot of a buffer: shape + every sample over its capacity
@@ -164,6 +167,11 @@ func c15RunRaw(cs c15Case) (fs []F) {
 			for k := 0; k < 3; k++ {
 				sls[i].Set(k, dyn.Tok(st, tk(int64(60+i*3+k))))
 			}
+			if i >= cs.C1 && cs.Surplus == 1 {
+				sls[i] = dyn.NewSl(st, 0)
+			} else if i >= cs.C1 && cs.Surplus == 2 {
+				sls[i] = dyn.NilSl(st)
+			}
 		}
 		var p bool
 		if cs.Fn == "rstriped" {
@@ -178,7 +186,7 @@ func c15RunRaw(cs c15Case) (fs []F) {
 			fail("modified", "buffer: %s", df)
 		}
 		for i := range sls {
-			for k := 0; k < 3; k++ {
+			for k := 0; k < sls[i].Len(); k++ {
 				if g := sls[i].Get(k); g.Tok() != tk(int64(60+i*3+k)) {
 					fail("modified", "caller's slice %d element %d changed to %v", i, k, g)
 				}
@@ -248,6 +256,11 @@ func init() {
 						}
 						cases = append(cases, c15Case{Fn: "rstriped", S: tn(s), D: tn(d), C1: ch, Nil: true})
 						cases = append(cases, c15Case{Fn: "wstriped", S: tn(s), D: tn(d), C1: ch, Nil: true})
+						if s == d || (s+d)%5 == 0 { // more slices than channels, the surplus ones empty / nil
+							for _, sp := range []int{1, 2} {
+								cases = append(cases, c15Case{Fn: "rstriped", S: tn(s), D: tn(d), C1: ch, C2: ch + 1, Surplus: sp}, c15Case{Fn: "wstriped", S: tn(s), D: tn(d), C1: ch, C2: ch + 1, Surplus: sp}, c15Case{Fn: "wstriped", S: tn(s), D: tn(d), C1: ch, C2: ch + 2, Surplus: sp})
+							}
+						}
 					}
 				}
 				for c1 := 1; c1 <= 4; c1++ {
@@ -330,7 +343,7 @@ func init() {
 			c.Sample(cases[0])
 			c.Sample(cases[len(cases)-1])
 			c.Sample(cases[len(cases)/2])
-			c.Set("rule", "the 13 guarded entry points: all 169 conversion instantiations x every ordered pair of different channel counts in 1..4; Append x 13 types x the same pairs; ReadStriped/WriteStriped x 169 pairs x channels 1..4 x slice counts 0..5 (and a nil outer slice) different from the channel count; PoolAllocator.Put x 13 types x pools (C<=3,K<=3) x buffers (C<=4,K<=4) of a different total capacity (incl. 0); operands non-empty, filled with recognisable tokens; plus channel-count pairs (9,10), (64,65), (1,100) and 1100-frame operands for all instantiations, 70000-frame operands for one instantiation of each conversion function, the same-type ones and Append and pools up to 20000 samples; the zero value of the buffer type as receiver of Append; foreign buffers of 2^20+1 .. 2^27+5 samples (up to 128 MiB) offered to 16-sample pools; oracle: the call panics and both buffers (shape + every sample over the capacity), the caller's slices and the pool's free list (seen through the sync shim) are identical to the snapshot taken before, and a following Get is fresh; every case distinct and non-trivial")
+			c.Set("rule", "the 13 guarded entry points: all 169 conversion instantiations x every ordered pair of different channel counts in 1..4; Append x 13 types x the same pairs; ReadStriped/WriteStriped x 169 pairs x channels 1..4 x slice counts 0..5 (and a nil outer slice; surplus slices also empty or nil) different from the channel count; PoolAllocator.Put x 13 types x pools (C<=3,K<=3) x buffers (C<=4,K<=4) of a different total capacity (incl. 0); operands non-empty, filled with recognisable tokens; plus channel-count pairs (9,10), (64,65), (1,100) and 1100-frame operands for all instantiations, 70000-frame operands for one instantiation of each conversion function, the same-type ones and Append and pools up to 20000 samples; the zero value of the buffer type as receiver of Append; foreign buffers of 2^20+1 .. 2^27+5 samples (up to 128 MiB) offered to 16-sample pools; oracle: the call panics and both buffers (shape + every sample over the capacity), the caller's slices and the pool's free list (seen through the sync shim) are identical to the snapshot taken before, and a following Get is fresh; every case distinct and non-trivial")
 			c.Assume("the pool's contents are observed through the sync.Pool shim injected by overlay")
 		},
 		RunCase: func(c *core.Ctx, raw json.RawMessage) []F { return c15Run(decode[c15Case](raw)) },
